@@ -61,18 +61,10 @@ Theorem C13_jump_time_roundtrip : forall arg label_time,
   lower_goto_time (raise_goto_time arg label_time) label_time = arg.
 Proof. exact jump_time_roundtrip. Qed.
 
-(* (6) label names.  Defect found on the unchanged tree (known finding, fixes/c13-duplicate-label-0r.diff):
-       for a jump to offset 0 whose time argument is 0 while the first instruction has a positive time,
-       generate_label_at_offset names the label after "previous offset" 0, the same name as the "r"
-       label of the second instruction; the decompiled script then has two labels `label_0r`.
-       The faithful model reproduces this; names are distinct whenever the label at offset 0 is not
-       an "r" label. *)
-Theorem C13_labels_distinct_all_scripts_refuted : exists times jumps, ~ labels_distinct times jumps.
-Proof. exact labels_distinct_all_scripts_refuted. Qed.
-
-Theorem C13_labels_distinct_guarded : forall times jumps,
-  (forall lb, label_for times jumps 0 = Some lb -> l_id lb = 0) -> labels_distinct times jumps.
-Proof. exact labels_distinct_guarded. Qed.
+(* (6) label names: two different jump targets never get the same label name (the defect found by this
+       check on the original tree -- two labels `label_0r` -- is fixed by commit 3f82254) *)
+Theorem C13_labels_distinct : forall times jumps, labels_distinct times jumps.
+Proof. exact labels_distinct_all. Qed.
 
 (* non-vacuity: the example of doc/syntax.md (`loop { +4: foo(); +6: }` after `+5:`), a wrapping
    delta, and a decompilation with a negative -> positive crossing and an "r" label *)
@@ -94,6 +86,3 @@ Proof. vm_compute. reflexivity. Qed.
 
 Example C13_ex_hyp : Forall in_i32 [-1; 6; 6; 3].
 Proof. repeat constructor; unfold in_i32, I32_MIN, I32_MAX; lia. Qed.
-
-Example C13_ex_guard : forall lb, label_for [-1; 6; 6; 3] [(1%nat, Some (-1)); (3%nat, None)] 0 = Some lb -> l_id lb = 0.
-Proof. vm_compute. discriminate. Qed.
